@@ -43,15 +43,17 @@ void install_fault_handlers(){
 std::string jmemlog(const std::vector<MemEv>&v){ std::string s="["; for(size_t i=0;i<v.size();++i){ if(i) s+=','; char b[96]; long long sz=v[i].size; if(sz>2000000000LL) sz=2000000000LL; snprintf(b,sizeof b,"[\"%c\",%ld,%lld,%d,%ld]",v[i].kind,v[i].id,sz,v[i].ok,v[i].oldid); s+=b; } return s+"]"; }
 std::string RecMM::jlog() const { return jmemlog(log); }
 static RecMM* self(UriMemoryManager*m){ return (RecMM*)m->userData; }
-static void* rec_alloc(RecMM*r,char kind,size_t size,bool zero){
+// the recording manager's own use of libc is not the library's: suspend attribution while inside it
+struct NoLib { int save; NoLib():save(g_in_lib){ g_in_lib=0; } ~NoLib(){ g_in_lib=save; } };
+static void* rec_alloc(RecMM*r,char kind,size_t size,bool zero){ NoLib nl;
   if(r->should_fail()){ r->log.push_back({kind,0,(long long)size,0,0}); errno=ENOMEM; return nullptr; }
   void*p=zero?calloc(1,size?size:1):malloc(size?size:1); long id=r->nextid++; r->live[p]={id,size}; r->log.push_back({kind,id,(long long)size,1,0}); return p; }
 static void* rec_malloc(UriMemoryManager*m,size_t n){ return rec_alloc(self(m),'m',n,false); }
 static void* rec_calloc(UriMemoryManager*m,size_t a,size_t b){ size_t t; if(__builtin_mul_overflow(a,b,&t)){ self(m)->log.push_back({'c',0,-1,0,0}); errno=ENOMEM; return nullptr; } return rec_alloc(self(m),'c',t,true); }
-static void rec_free(UriMemoryManager*m,void*p){ RecMM*r=self(m); if(!p){ r->log.push_back({'f',0,0,1,0}); return; }
+static void rec_free(UriMemoryManager*m,void*p){ NoLib nl; RecMM*r=self(m); if(!p){ r->log.push_back({'f',0,0,1,0}); return; }
   auto it=r->live.find(p); if(it==r->live.end()){ r->bad=true; r->log.push_back({'f',-1,0,0,0}); return; }
   r->log.push_back({'f',it->second.first,(long long)it->second.second,1,0}); memset(p,0xDD,it->second.second); r->live.erase(it); free(p); }
-static void* rec_realloc(UriMemoryManager*m,void*p,size_t n){ RecMM*r=self(m);
+static void* rec_realloc(UriMemoryManager*m,void*p,size_t n){ NoLib nl; RecMM*r=self(m);
   if(!p) return rec_alloc(r,'r',n,false);
   auto it=r->live.find(p); if(it==r->live.end()){ r->bad=true; r->log.push_back({'r',-1,(long long)n,0,0}); return nullptr; }
   if(n==0){ r->log.push_back({'r',0,0,1,it->second.first}); r->live.erase(it); free(p); return nullptr; }
